@@ -129,7 +129,7 @@ func settle(f *fakes.TrackerFixture) {
 	}
 }
 
-const rule = "state machine over 3 data CIDs and 1 meta CID on one real stateless tracker (queue size 1-4, 1-3 pin workers) talking to a gated model IPFS daemon: track (local / everywhere / remote / meta x recursive / direct, the pinset updated first), untrack, recover, recoverAll, release of the k-th parked IPFS call with outcome ok or error, releaseAll (ok or all failing), the daemon losing a pin behind the tracker's back; the schedule is part of the generated value; at the end everything is released with a healthy daemon, the quiescent state is judged, then a recover round runs (RecoverAll only, or Recover of each CID only) and the state is judged strictly; non-trivial = an instruction of the opposite type arrives while a call for the same CID is parked, or an injected IPFS error, or a full queue; distinct by action script"
+const rule = "state machine over 3 data CIDs and 1 meta CID on one real stateless tracker (queue size 1-4, 1-3 pin workers) talking to a gated model IPFS daemon: track (local / everywhere / remote / meta x recursive / direct, the pinset updated first), retrack (the last track instruction of a CID submitted again), untrack, recover, recoverAll, release of the k-th parked IPFS call with outcome ok or error, releaseAll (ok or all failing), the daemon losing a pin behind the tracker's back; the schedule is part of the generated value; at the end everything is released with a healthy daemon, the quiescent state is judged, then a recover round runs (RecoverAll only, or Recover of each CID only) and the state is judged strictly; non-trivial = an instruction of the opposite type arrives while a call for the same CID is parked, or an injected IPFS error, or a full queue; distinct by action script"
 
 func TestConverge(t *testing.T) {
 	leg := ev.L("converge", rule)
@@ -175,67 +175,93 @@ func TestConverge(t *testing.T) {
 			return false
 		}
 
+		var trackWith func(t *rapid.T, c cid.Cid, loc string, mode api.PinMode)
+		trackWith = func(t *rapid.T, c cid.Cid, loc string, mode api.PinMode) {
+			k := c.String()
+			// A direct instruction for a CID the daemon holds recursively is
+			// not generated: the cluster refuses that re-pin, and when it
+			// comes about through unpin + pin it is the open finding
+			// KFDowngrade. While the recursive pin has not been carried out
+			// (its call is still queued or parked) a direct instruction is
+			// legitimate - two peers writing the same CID concurrently under
+			// CRDT consensus produce it - and cancel-and-replace must cope.
+			if mode == api.PinModeDirect && wasRecursive[k] && f.D.Get(c) == api.IPFSPinStatusRecursive {
+				if kf.Open(KFDowngrade) {
+					leg.Excl("direct track of a CID the daemon holds recursively (" + KFDowngrade + ")")
+				}
+				mode = api.PinModeRecursive
+			}
+			if prev := last[k]; prev != nil && prev.kind == "track" && prev.mode == api.PinModeRecursive && mode == api.PinModeDirect {
+				classes["direct-over-pending-recursive"] = true
+			}
+			if prev := last[k]; prev != nil && prev.kind == "track" && prev.mode != mode && kf.Open(KFDedupeContent) {
+				leg.Excl("mode change on re-track (" + KFDedupeContent + ")")
+				mode = prev.mode
+			}
+			if mode == api.PinModeDirect && (kf.Open(KFRecoverOptions) || kf.Open(KFDirectListing)) {
+				leg.Excl("direct-mode pins not generated (" + KFRecoverOptions + ", " + KFDirectListing + ")")
+				mode = api.PinModeRecursive
+			}
+			if mode == api.PinModeRecursive {
+				wasRecursive[k] = true
+			} else {
+				classes["direct"] = true
+			}
+			if parkedFor(c, "unpin") && loc != "remote" {
+				classes["nontrivial"] = true
+				classes["cancel-in-flight"] = true
+			}
+			p := mkPin(c, loc, mode)
+			if err := f.St.Add(ctx, p); err != nil {
+				t.Fatal(err)
+			}
+			seq++
+			last[k] = &instr{"track", loc, mode, seq}
+			script = append(script, fmt.Sprintf("track(%s,%s,%s)", cn(c), loc, mode))
+			running.Add(1)
+			go func() {
+				defer running.Done()
+				err := f.T.Track(ctx, p)
+				resMu.Lock()
+				defer resMu.Unlock()
+				if err != nil && err != stateless.ErrFullQueue {
+					panic(fmt.Sprintf("Track returned %v", err))
+				}
+				if err == stateless.ErrFullQueue {
+					classes["full-queue"] = true
+					classes["nontrivial"] = true
+				}
+			}()
+			settle(f)
+		}
 		t.Repeat(map[string]func(*rapid.T){
 			"track": func(t *rapid.T) {
 				c := data[rapid.IntRange(0, len(data)-1).Draw(t, "cid")]
 				loc := rapid.SampledFrom([]string{"local", "local", "everywhere", "remote"}).Draw(t, "loc")
 				mode := rapid.SampledFrom([]api.PinMode{api.PinModeRecursive, api.PinModeRecursive, api.PinModeDirect}).Draw(t, "mode")
-				k := c.String()
-				// A direct instruction for a CID the daemon holds recursively is
-				// not generated: the cluster refuses that re-pin, and when it
-				// comes about through unpin + pin it is the open finding
-				// KFDowngrade. While the recursive pin has not been carried out
-				// (its call is still queued or parked) a direct instruction is
-				// legitimate - two peers writing the same CID concurrently under
-				// CRDT consensus produce it - and cancel-and-replace must cope.
-				if mode == api.PinModeDirect && wasRecursive[k] && f.D.Get(c) == api.IPFSPinStatusRecursive {
-					if kf.Open(KFDowngrade) {
-						leg.Excl("direct track of a CID the daemon holds recursively (" + KFDowngrade + ")")
+				trackWith(t, c, loc, mode)
+			},
+			"retrack": func(t *rapid.T) {
+				// the same pin submitted again (a re-pin with unchanged options
+				// reaches the tracker again, and that is how a failed
+				// best-effort action gets another chance)
+				var cands []cid.Cid
+				for _, c := range data {
+					if l := last[c.String()]; l != nil && l.kind == "track" {
+						cands = append(cands, c)
 					}
-					mode = api.PinModeRecursive
 				}
-				if prev := last[k]; prev != nil && prev.kind == "track" && prev.mode == api.PinModeRecursive && mode == api.PinModeDirect {
-					classes["direct-over-pending-recursive"] = true
+				if len(cands) == 0 {
+					t.Skip("nothing tracked")
 				}
-				if prev := last[k]; prev != nil && prev.kind == "track" && prev.mode != mode && kf.Open(KFDedupeContent) {
-					leg.Excl("mode change on re-track (" + KFDedupeContent + ")")
-					mode = prev.mode
-				}
-				if mode == api.PinModeDirect && (kf.Open(KFRecoverOptions) || kf.Open(KFDirectListing)) {
-					leg.Excl("direct-mode pins not generated (" + KFRecoverOptions + ", " + KFDirectListing + ")")
-					mode = api.PinModeRecursive
-				}
-				if mode == api.PinModeRecursive {
-					wasRecursive[k] = true
-				} else {
-					classes["direct"] = true
-				}
-				if parkedFor(c, "unpin") && loc != "remote" {
+				c := cands[rapid.IntRange(0, len(cands)-1).Draw(t, "cid")]
+				l := last[c.String()]
+				if l.loc == "remote" && unpinFailAfter[c.String()] >= l.seq {
+					classes["retrack-remote-after-failed-unpin"] = true
 					classes["nontrivial"] = true
-					classes["cancel-in-flight"] = true
 				}
-				p := mkPin(c, loc, mode)
-				if err := f.St.Add(ctx, p); err != nil {
-					t.Fatal(err)
-				}
-				seq++
-				last[k] = &instr{"track", loc, mode, seq}
-				script = append(script, fmt.Sprintf("track(%s,%s,%s)", cn(c), loc, mode))
-				running.Add(1)
-				go func() {
-					defer running.Done()
-					err := f.T.Track(ctx, p)
-					resMu.Lock()
-					defer resMu.Unlock()
-					if err != nil && err != stateless.ErrFullQueue {
-						panic(fmt.Sprintf("Track returned %v", err))
-					}
-					if err == stateless.ErrFullQueue {
-						classes["full-queue"] = true
-						classes["nontrivial"] = true
-					}
-				}()
-				settle(f)
+				classes["retrack"] = true
+				trackWith(t, c, l.loc, l.mode)
 			},
 			"trackMeta": func(t *rapid.T) {
 				p := mkPin(meta, "meta", api.PinModeRecursive)
